@@ -72,11 +72,16 @@ def reference(mab, dec, rew, ctx, test, batch):
     return preds, exps
 
 
-def simulate(env, specs, N, d, test_size, batch, quick, ordered=True, A=2, twin=False, fixed_dec=False):
+def simulate(env, specs, N, d, test_size, batch, quick, ordered=True, A=2, twin=False, fixed_dec=False, ctx_values=None):
     arms = list(LABELS['int'][:A])
     dec = np.asarray([arms[i % len(arms)] for i in range(N)] if fixed_dec else [env.choose('d_%d' % i, arms) for i in range(N)])
     rew = env.reals('r', (N,))
-    ctx = env.reals('x', (N, d))
+    if ctx_values is not None:
+        # concrete contexts (exact ties between distances), symbolic rewards: distances are float64 arrays in the simulator and
+        # in the public API alike, so numpy's own tie-breaking (argpartition's float kernel) is what both sides run
+        ctx = np.asarray(ctx_values, dtype=float).reshape(N, d)
+    else:
+        ctx = env.reals('x', (N, d))
     bandits = [('b%d' % k, build(env, s, arms, k)) for k, s in enumerate(specs)]
     originals = [(nm, copy.deepcopy(b)) for nm, b in bandits]
     sim = Sim()(bandits, dec, rew, ctx, test_size=test_size, is_ordered=ordered, batch_size=batch, is_quick=quick, seed=7)
@@ -149,6 +154,15 @@ def scenarios(tier):
                         dict(specs=[('greedy0', 'radius:seuclidean')], N=4, d=1, test_size=0.5, batch=0, quick=True,
                              fixed_dec=True), weight=400, shards=8, max_paths=100000, setup=dict(no_tv=True),
                         bounds=dict(bandits='greedy0.radius:seuclidean', rows='2 train + 2 test', batch_size=0)))
+    # exact ties with concrete contexts: train distances (1, 1, 0, 0) to the test row - numpy's argpartition picks row 3, a
+    # stable sort row 2; the simulator's neighbour selection must be the API's
+    for lp in (['greedy0'] if q else ['greedy0', 'ucb1']):
+        out.append(Scenario('%s.knearest:1:cityblock.concrete_ties.batch0' % lp, simulate,
+                            dict(specs=[(lp, 'knearest:1:cityblock')], N=5, d=1, test_size=0.2, batch=0, quick=True,
+                                 fixed_dec=True, ctx_values=[1, 1, 0, 0, 0]), weight=100, max_paths=20000,
+                            setup=dict(no_tv=True),
+                            bounds=dict(bandits='%s.knearest:1:cityblock' % lp, rows='4 train + 1 test', contexts='concrete '
+                                        '(1, 1, 0, 0 | 0): two pairs of tied distances', rewards='symbolic')))
     # exact ties at the k-th neighbour: 4 training rows, k = 1: the smallest size at which numpy's argpartition and a stable sort pick different rows (the simulator's own k-nearest selection must agree with the API's)
     if not q:
       out.append(Scenario('greedy0.knearest:1:cityblock.ties.batch0', simulate,
